@@ -8,27 +8,33 @@ import gen as G
 
 
 def rescan(ci, d):
-    """Independent, range-checked reading of a returned diagram: no slicing tricks.
-    Returns None when well-typed, else a description of what is wrong."""
-    dom, cod = list(d.dom.objects), list(d.cod.objects)
+    """Independent, range-checked reading of a returned diagram: no slicing tricks and
+    no use of the library's own == (objects are compared as (name, winding) pairs, boxes
+    as canonical tuples).  Returns None when well-typed, else what is wrong."""
+    T = ci.canon_ty
+    dom, cod = T(d.dom), T(d.cod)
     boxes, offs, layers = d.boxes, d.offsets, d.layers
     if len(boxes) != len(offs) or len(boxes) != len(layers.boxes):
         return "boxes, offsets and layers have different lengths"
-    if list(layers.dom.objects) != dom or list(layers.cod.objects) != cod:
+    if T(layers.dom) != dom or T(layers.cod) != cod:
         return "layer view does not start at dom / end at cod"
     scan = dom
     for k, (box, off, layer) in enumerate(zip(boxes, offs, layers.boxes)):
         left, lbox, right = layer
-        bdom, bcod = list(box.dom.objects), list(box.cod.objects)
-        if not isinstance(off, int) or isinstance(off, bool) and False:
+        bdom, bcod = T(box.dom), T(box.cod)
+        if not isinstance(off, int):
             return "offset %r is not an int" % (off,)
         if off < 0 or off + len(bdom) > len(scan):
             return "box %d: offset %d out of range for width %d" % (k, off, len(scan))
         if scan[off:off + len(bdom)] != bdom:
             return "box %d does not find its domain at offset %d" % (k, off)
-        if list(left.objects) != scan[:off] or list(right.objects) != scan[off + len(bdom):]:
+        if T(left) != scan[:off] or T(right) != scan[off + len(bdom):]:
             return "layer %d disagrees with the reading of boxes and offsets" % k
-        if lbox != box or box != lbox:
+        try:
+            same = ci.canon_box(lbox) == ci.canon_box(box)
+        except AssertionError:
+            same = lbox == box
+        if not same:
             return "layer %d carries a different box" % k
         scan = scan[:off] + bcod + scan[off + len(bdom):]
     if scan != cod:
@@ -113,6 +119,21 @@ def programs(tier, seed, rigid):
             tr = [[x[0], x[1] + 1] for x in reversed(t)]
             progs.append([rng.choice([G.CUPS, G.CAPS]), t, tr])
             progs.append([rng.choice([G.CUPS, G.CAPS]), tr, t])
+    # mixed classes: plain monoidal boxes (names >= 200) composed with rigid wires of every winding
+    if rigid:
+        for _ in range(150 if tier == "quick" else 2000):
+            x = g.ob()
+            m = [rng.choice([1, 2, 3]), 0]
+            plain = [G.KBOX, 200 + rng.randint(0, 3), [[x[0], 0]], [m], 0, []]
+            pre = [G.BOX, g.box(g.ty(0, 1), [x])]
+            if rng.random() < 0.5:
+                progs.append([G.THEN, pre, [G.BOX, plain]])
+            else:
+                w = g.ob()
+                progs.append([G.THEN, [G.TENSOR, pre, [G.ID, [w]]], [G.TENSOR, [G.BOX, plain], [G.ID, [w]]]])
+            cap = g.cap_box(x)
+            progs.append([G.THEN, [G.BOX, cap], [G.TENSOR, [G.BOX, [G.KBOX, 201, [[cap[3][0][0], 0]], [m], 0, []]],
+                                                 [G.ID, [cap[3][1]]]]])
     # malformed stream (~15 %)
     for _ in range(len(progs) // 6):
         progs.append(g.malformed())
@@ -144,6 +165,10 @@ def run(tier, seed):
                 if bad:
                     rep.violation(bad, {"class": cname, "program": p, "impl": impl,
                                         "replay": base.snippet(cname, p)})
+    # the extracted runner against vm_compute inside coqc, on a sample of this run's programs
+    xs = programs(tier, seed, True)
+    common.cross_check_extraction(rep, "core", ["DV.Common.Base", "DV.Core.Prog"], "run_sexp", xs,
+                                  random.Random(seed + 99), n=60 if tier == "quick" else 600)
     base.settle(rep, "C01", proof_ok, "C01")
     return rep.finish(
         rule="classes monoidal and rigid: hand-written corpus (constructor offsets, reversed partial "
